@@ -110,17 +110,18 @@ omit hX
 
 /-! ## instantiation with `Ex` (binary operators, atoms, parentheses — and whatever it grows into) -/
 
-/-- `expr_roundtrip` is what the statement layer assumes -/
+/-- `expr_roundtrip`, `chain_roundtrip` and `na_sound` are what the statement layer assumes:
+    * any well-formed expression where an expression is expected;
+    * any member-access chain (`Ex.isChain`: identifiers, calls, indexings joined by `.`) as an assignment target;
+    * any expression with `Ex.naB` (not of the form `chain = …` at its left end) as an expression statement -/
 theorem exSpec_sound : exSpec.Sound where
   parses := fun e h k hk => expr_roundtrip e ((wfb_iff e 8).mp h) k hk
-  noAssign := fun e _ hs k _ => noAssign_of_first e.toks k hs
+  noAssign := fun e hw hs k hk =>
+    na_sound e 8 (Nat.le_refl 8) ((wfb_iff e 8).mp hw) hs k (stop_down hk.stop8).stopD
+      (fun _ t r e' hin => hk t r e' (assign_sbad _ hin))
   lhs := fun e h op r hop => by
-    cases e with
-    | atom t =>
-      have hs0 : Stop 0 (op :: r) := by
-        intro t' r' e'; cases e'; exact (assign_table _ hop).1
-      exact parses_dotops_ident t (op :: r) (by simpa [exSpec] using h) hs0
-    | _ => simp [exSpec] at h
+    have h' : e.isChain = true ∧ e.wfb 0 = true := by simpa [exSpec] using h
+    exact parses_chain e h'.1 ((wfb_iff e 0).mp h'.2) (op :: r) (stopD_of_kind op r (assign_badD _ hop))
 
 /-- **programs over `Ex`**: `parse_gold (print p) = (tree p, no diagnostics)` -/
 theorem prog_roundtrip_ex (p : Prog Ex) (h : Prog.WF exSpec p) :
@@ -163,7 +164,7 @@ proc Run(const n : Int, inout m : refTo aBar) private override
 endproc
 func Get return Int
   return count + 1
-  1
+  1 obj.items[i].x = f(1) obj.run(1, count)
   foreach v in l
     repeat
       continue
@@ -220,6 +221,14 @@ private def sample : Prog Ex :=
       (tk Kind.Identifier "Int" 19 16) []
       (some ([ .ret (tk Kind.Return "return" 20 2) (.bin (idt "count" 20 9) (tk Kind.Plus "+" 20 15) (num "1" 20 17)),
         .expr (num "1" 21 2),
+        .assign (.dot (.dot (idt "obj" 21 4) (tk Kind.Dot "." 21 7)
+                    (.index (tk Kind.Identifier "items" 21 8) (tk Kind.OSqrBracket "[" 21 13) (idt "i" 21 14) (tk Kind.CSqrBracket "]" 21 15)))
+                  (tk Kind.Dot "." 21 16) (idt "x" 21 17))
+          (tk Kind.Equals "=" 21 19)
+          (.call (tk Kind.Identifier "f" 21 21) (tk Kind.OBracket "(" 21 22) (.one (num "1" 21 23)) (tk Kind.CBracket ")" 21 24)),
+        .expr (.dot (idt "obj" 21 26) (tk Kind.Dot "." 21 29)
+          (.call (tk Kind.Identifier "run" 21 30) (tk Kind.OBracket "(" 21 33)
+            (.more (num "1" 21 34) (tk Kind.Comma "," 21 35) (.one (idt "count" 21 37))) (tk Kind.CBracket ")" 21 42))),
         .foreachS (tk Kind.ForEach "foreach" 22 2) (.bin (idt "v" 22 10) (tk Kind.In "in" 22 12) (idt "l" 22 15))
           [ .repeatS (tk Kind.Repeat "repeat" 23 4) [ .ctl (tk Kind.Continue "continue" 24 6) ] (tk Kind.Until "until" 25 4)
               (idt "v" 25 10),
@@ -273,8 +282,15 @@ example : ¬ Prog.WF exSpec
         (some ([ .loopS (tk Kind.Loop "loop" 1 0) [] (tk Kind.End "end" 2 0) ], tk Kind.EndProc "endproc" 3 0)) ] := by
   rw [← prog_wfb_iff]; decide +kernel
 
-/-- nor is an expression statement that starts like an assignment target accepted -/
-example : ¬ Stmts.WF exSpec [ .expr (idt "a" 0 0) ] := by
+/-- nor is `a = b` an expression statement: `parse_assignment` takes it (it is `Stmt.assign`) … -/
+example : ¬ Stmts.WF exSpec [ .expr (.bin (idt "a" 0 0) (tk Kind.Equals "=" 0 2) (idt "b" 0 4)) ] := by
+  rw [← Stmts.wfb_iff]; decide +kernel
+
+/-- … while a call, a chain ending in a call, `a.b++` and `a < b = c` (which does not start with `chain =`) are -/
+example : Stmts.WF exSpec
+    [ .expr (.call (tk Kind.Identifier "f" 0 0) (tk Kind.OBracket "(" 0 1) (.one (idt "x" 0 2)) (tk Kind.CBracket ")" 0 3)),
+      .expr (.post (.dot (idt "a" 1 0) (tk Kind.Dot "." 1 1) (idt "b" 1 2)) (tk Kind.Increment "++" 1 3)),
+      .expr (.bin (.bin (idt "a" 2 0) (tk Kind.LessThan "<" 2 2) (idt "b" 2 4)) (tk Kind.Equals "=" 2 6) (idt "c" 2 8)) ] := by
   rw [← Stmts.wfb_iff]; decide +kernel
 
 end Gold.C06
